@@ -102,8 +102,20 @@ def run(ctx):
                 m2 = zoo.construct(inf2); m2.solve()
                 ctx.count("E2_ignore_metamorphic", "cases")
                 if m2.is_solved() != m.is_solved() or (m.is_solved() and not same(objective(m, name), objective(m2, name))):
+                    key = None
+                    if cyclic:
+                        # the cyclic models cap the traversals of an edge by the largest weight reachable from it, computed over
+                        # ALL edges including ignored ones (open finding cycles_rep_cap_from_reachable_max, C07/C08): when the two
+                        # runs differ in exactly those caps the dependence on the ignored value is that finding, not a new one
+                        try:
+                            fa = info["kwargs"].get("flow_attr", "flow")
+                            c1 = m.G.compute_edge_max_reachable_value(flow_attr=fa); c2 = m2.G.compute_edge_max_reachable_value(flow_attr=fa)
+                            if c1 != c2:
+                                key = "cycles_rep_cap_from_reachable_max"
+                        except Exception:
+                            pass
                     ctx.report(f"{name}: changing the value of an ignored element changed the result "
-                               f"({m.is_solved()}, {objective(m, name)}) -> ({m2.is_solved()}, {objective(m2, name)})", rep); continue
+                               f"({m.is_solved()}, {objective(m, name)}) -> ({m2.is_solved()}, {objective(m2, name)})", rep, key=key); continue
             except Exception as e:
                 ctx.report(f"{name}: changing the value of an ignored element made the model raise {e!r}", rep); continue
         # (3) error scale 0 == ignoring (error models)
